@@ -46,6 +46,68 @@ def exists(fn_text):
     return fn_text in ("divmod", "abs", "round", "str", "next", "list")
 
 
+def _watch_delivery(ctx):
+    from engine.facts import calls_in
+    w = ctx.repo.func("param.reactive.reactive_ops._watch")
+    fn_param = "fn"
+    ctx.require(fn_param in w.params, "reactive_ops._watch no longer takes `fn`")
+    regs = [c for c in ast.walk(w.node) if isinstance(c, ast.Call) and norm(c.func) == "bind" and any(k.arg == "watch" and isinstance(k.value, ast.Constant) and k.value.value is True for k in c.keywords)]
+    ctx.require(regs, "reactive_ops._watch no longer registers a callback with bind(..., watch=True)")
+    reg = regs[0]
+    if not (len(reg.args) >= 2 and isinstance(reg.args[0], ast.Name) and norm(reg.args[1]) == "self._reactive"):
+        ctx.fail("R09.h", w, reg, "the watch callback is not bound to the expression itself (`%s`)" % norm(reg), key=w.qualname + "::registration")
+        return
+    ctx.ok("R09.h", w, reg, "callback `%s` bound to self._reactive with watch=True" % reg.args[0].id)
+    cbq = w.qualname + "." + reg.args[0].id
+    cb = ctx.repo.func(cbq)
+    val = cb.params[0] if cb.params else None
+    ctx.require(val, "the watch callback takes no value argument")
+    cfg = ctx.facts.cfg(cb)
+
+    def delivers(n):
+        for c in calls_in(n):
+            if isinstance(c.func, ast.Name) and c.func.id == fn_param and c.args and isinstance(c.args[0], ast.Name) and c.args[0].id == val:
+                return True
+            if norm(c.func) == "async_executor" and c.args and isinstance(c.args[0], ast.Call) and norm(c.args[0].func) == "partial" \
+                    and [norm(a) for a in c.args[0].args] == [fn_param, val]:
+                return True
+        return False
+    # every normal path from the entry to the exit passes a delivery, unless `fn is None` holds on it
+    seen, stack, skipping = set(), [(cfg.entry, ())], None
+    while stack and skipping is None:
+        n, facts = stack.pop()
+        if (n.id, facts) in seen:
+            continue
+        seen.add((n.id, facts))
+        if delivers(n):
+            continue
+        if n.kind == "br":
+            facts = facts + ((norm(n.ast), n.polarity),)
+        if n is cfg.exit:
+            no_fn = any((e in ("fn is not None", "fn") and pol is False) or (e == "fn is None" and pol is True) for e, pol in facts)
+            if not no_fn:
+                skipping = facts
+            continue
+        stack.extend((t, facts) for l, t in n.succ if l != "e")
+    if skipping is not None and any(val in {x.id for x in ast.walk(ast.parse(e, mode="eval")) if isinstance(x, ast.Name)} for e, _ in skipping):
+        # a filter that looks at the value itself (e.g. "same as last time") may be consistent with the property: not decided here
+        ctx.info("R09.h", cb, cb.node, "the callback skips delivery under a condition on the value itself (%s): whether that is 'unchanged' is not decided statically" % (
+            ", ".join("%s is %s" % x for x in skipping)))
+        skipping = None
+    if skipping is None:
+        ctx.ok("R09.h", cb, cb.node, "every path through the callback hands `%s` to `%s` unless no function was given" % (val, fn_param))
+    else:
+        ctx.fail("R09.h", cb, cb.node, "the watch callback can return without handing the new value to the registered function (path conditions: %s)" % (
+            ", ".join("%s is %s" % x for x in skipping) or "none"), key=cbq + "::skips-delivery",
+            input="e.rx.watch(f); e.rx.watch(g); update an input -> g is not called")
+    shared = sorted({norm(a) for a in ast.walk(cb.node) if isinstance(a, ast.Attribute) and isinstance(a.value, ast.Name) and a.value.id == w.params[0]})
+    if shared:
+        ctx.fail("R09.h", cb, cb.node, "the watch callback consults/updates %s: the .rx namespace object is shared by every callback registered on the expression, so one "
+                 "registration's bookkeeping silences the others" % ", ".join(shared), key=cbq + "::shared-state")
+    else:
+        ctx.ok("R09.h", cb, cb.node, "the callback uses only its own arguments and the registration's parameters")
+
+
 def run(ctx):
     ctx.rule("R09.a", "class rx defines the forward and the reflected special method of every binary operator of the Python data model", floor=28)
     ctx.rule("R09.b", "every operator./math. function referenced by a Python-3 special method of rx exists in that stdlib module", floor=40)
@@ -55,8 +117,15 @@ def run(ctx):
                       "(grouped by owner), and _invalidate_obj on the root's function parameters", floor=2)
     ctx.rule("R09.f", "invalidation effect: on every path except the own-trigger early return _invalidate_current marks the node dirty AND clears the stored error; "
                       "_invalidate_obj marks the root object dirty and clears the error; _resolve stores the error before re-raising and clears the dirty flag only after a completed evaluation", floor=3)
+    ctx.rule("R09.g", "change detection feeding the invalidation watchers is exact on containers: Comparator.compare_iterator/compare_mapping, interpreted abstractly on 24 container pairs, "
+                      "answer True iff same type, same size/key set and pairwise-equal elements (a false 'equal' suppresses the invalidation of every expression reading that input)", floor=2)
+    ctx.rule("R09.h", "watch delivery: reactive_ops._watch registers its callback with bind(<cb>, self._reactive, watch=True); inside the callback every path on which a function was given "
+                      "hands the value to it (directly or through the async executor), and the callback reads no state of the shared .rx namespace object", floor=3)
     ctx.not_decided += ["that .rx.value equals the plain-Python result after arbitrary read/update histories (cache coherence) -- not statically decidable here and NOT claimed",
                         "the .rx helper namespace (pipe, where, and_, ...) and rx.watch delivery"]
+    from checks.shared import comparator_model
+    comparator_model(ctx, "R09.g")
+    _watch_delivery(ctx)
     cls = ctx.repo.cls(RX)
     for name, fn in BINARY.items():
         for form, refl in (("__%s__" % name, False), ("__r%s__" % name, True)):
